@@ -99,6 +99,12 @@ fn main() {
             let idx: u64 = args.get(4).and_then(|s| s.parse().ok()).unwrap_or_else(|| usage());
             let seed = framework::case_seed(framework::base_seed(), &id, idx);
             let mut r = rng::Rng::new(seed);
+            if id == "C01" {
+                // the whole scenario (program, knobs, schedule, watchdog plan, API shape)
+                let (sc, family) = checks::c01::gen_scenario(&mut r, tier);
+                println!("{family} {}", serde_json::to_string(&sc).unwrap());
+                return;
+            }
             let (code, family) = checks::c02::gen_program(&mut r, tier);
             println!("{family} {}", hex::encode(code));
         }
